@@ -113,6 +113,16 @@ CHECKS = {
              "odd-sized and user-supplied stacks under 9 memory-pool configurations own their whole stack exclusively, report "
              "at least the requested size, can be freed from any context, and ABT_finalize balances the ledger",
         ref="DESIGN.md §5 C15"),
+    "C01": dict(
+        technique="runtime monitoring: per-unit exactly-once ledger (function identity, tagged argument, start/completion "
+                  "counters, starting stream vs. pool->scheduler map) over seeded random programs and configurations incl. "
+                  "user-defined and stacked schedulers, checked at join / xstream_join / finalize; delay injection, CPU "
+                  "squeeze, ASan/TSan builds",
+        category="exploration",
+        text="held on the executions produced: thousands of work units per run over random programs and scheduler/pool "
+             "configurations each start exactly once with their own function and argument, complete before their joiner, "
+             "before the join of the only stream serving their pool and before ABT_finalize return; pools empty at quiescence",
+        ref="DESIGN.md §5 C01"),
 }
 
 
